@@ -158,6 +158,12 @@ def run(ctx):
                 o = vlib.run_lines(exe, ['tgsw %d %s %s' % (opc, base, fmt(Cr))])[0]; ctx.count((l, B, k, nm))
                 d = maxdiff(ints(o), want) if not o.startswith('CRASH') else 2**32
                 if d > t8: ctx.report('gadget-addh', '%s differs from the gadget of the message 1 by %d units (k=%d (l,B)=(%d,%d))' % (nm, d, k, l, B), {'k': k, 'l': l, 'B': B, 'opcode': opc, 'maxdiff': d})
+            # the same gadget added to a non-zero sample (an encryption of m becomes one of m + 1): model = tGswAddMuIntH(1) on the given rows
+            wantnz = ints(vlib.run_model(['tgsw 3 %s %s 1' % (base, fmt(Cr))], 'fast')[0])
+            for opc, nm, t8 in ((12, 'tGswAddH on a non-zero sample', 0), (13, 'tGswToFFTConvert + tGswFFTAddH + tGswFromFFTConvert on a non-zero sample', 2)):
+                o = vlib.run_lines(exe, ['tgsw %d %s %s' % (opc, base, fmt(Cr))])[0]; ctx.count((l, B, k, nm))
+                d = maxdiff(ints(o), wantnz) if not o.startswith('CRASH') else 2**32
+                if d > t8: ctx.report('gadget-addh', '%s differs from the rows plus the gadget of the message 1 by %d units (k=%d (l,B)=(%d,%d))' % (nm, d, k, l, B), {'case': ('tgsw %d %s %s' % (opc, base, fmt(Cr)))[:200000], 'k': k, 'l': l, 'B': B, 'opcode': opc, 'maxdiff': d})
             ip = [rng.randrange(-(1 << (B - 1)), 1 << (B - 1)) for _ in range(N)]
             row0 = Cr[:(k + 1) * N]
             xl = ['xmul %d %s %s' % (N, fmt(ip), fmt(row0[i * N:(i + 1) * N])) for i in range(k + 1)]
